@@ -15,6 +15,7 @@ package main
 
 import (
 	"fmt"
+	"math"
 	"os"
 	"sort"
 	"strings"
@@ -363,28 +364,43 @@ func (g *genCtx) genRequest(v2 bool, dist func(string)) *request {
 		// corruptions of the references
 		for i := range req.Ser {
 			s := &req.Ser[i]
-			if r.Chance(1, 14) && len(s.Refs) > 0 {
-				switch r.Intn(4) {
+			if r.Chance(1, 10) && len(s.Refs) > 0 {
+				n := uint32(len(req.Syms))
+				bound := gen.Pick(r, []uint32{n - 1, n, n, n + 1, math.MaxUint32})
+				switch r.Intn(5) {
 				case 0:
 					s.Refs = s.Refs[:len(s.Refs)-1]
 					dist("v2:odd-label-refs")
 				case 1:
-					s.Refs[r.Intn(len(s.Refs))] = uint32(len(req.Syms) + r.Intn(3))
-					dist("v2:label-ref-out-of-range")
+					s.Refs[2*r.Intn(len(s.Refs)/2)] = bound
+					dist("v2:label-name-ref-boundary")
 				case 2:
-					s.Unit = uint32(len(req.Syms))
-					dist("v2:unit-ref-out-of-range")
+					s.Refs[2*r.Intn(len(s.Refs)/2)+1] = bound
+					dist("v2:label-value-ref-boundary")
 				case 3:
-					s.Help = uint32(len(req.Syms) + 7)
-					dist("v2:help-ref-out-of-range")
+					s.Unit = bound
+					dist("v2:unit-ref-boundary")
+				case 4:
+					s.Help = bound
+					dist("v2:help-ref-boundary")
 				}
 			}
 			for j := range s.E {
-				if r.Chance(1, 12) && len(s.E[j].Refs) > 0 {
-					if r.Bool() {
+				if r.Chance(1, 8) && len(s.E[j].Refs) > 1 {
+					n := uint32(len(req.Syms))
+					bound := gen.Pick(r, []uint32{n - 1, n, n, n + 1, math.MaxUint32})
+					if g.head && bound == n-1 {
+						// against the real head keep exemplars with equal timestamp and value identical
+						// (validateExemplar's label-hash tie-break is not modelled)
+						bound = n
+					}
+					switch r.Intn(3) {
+					case 0:
 						s.E[j].Refs = s.E[j].Refs[:len(s.E[j].Refs)-1]
-					} else {
-						s.E[j].Refs[0] = uint32(len(req.Syms))
+					case 1:
+						s.E[j].Refs[0] = bound
+					default:
+						s.E[j].Refs[1] = bound
 					}
 					dist("v2:bad-exemplar-refs")
 				}
@@ -460,6 +476,12 @@ func wants(req *request) []want {
 				if !okr {
 					continue
 				}
+				// the labels the receiver decodes (sorted by name), not the generator's
+				e.L = nil
+				for k := 0; k+1 < len(e.Refs); k += 2 {
+					e.L = append(e.L, lbl{req.Syms[e.Refs[k]], req.Syms[e.Refs[k+1]]})
+				}
+				sort.SliceStable(e.L, func(a, b int) bool { return e.L[a].N < e.L[b].N })
 			}
 			w.e = append(w.e, e)
 		}
@@ -608,6 +630,9 @@ func main() {
 		if rec.calls > 0 {
 			meta.Nontrivial++
 		}
+		if res.Panicked {
+			meta.Hit("rec:handler-panic")
+		}
 		meta.Case(id, recDesc{Kind: "rec", Shape: "rec-" + ver(req.V2), Version: ver(req.V2), Script: script, CommitOK: commitOK, Req: req,
 			Status: res.Status, Stats: res.Stats, Calls: rec.calls, Fin: rec.fin, Corpus: corpus})
 		meta.Evaluations++
@@ -653,6 +678,11 @@ func main() {
 			}
 			steps = append(steps, fmt.Sprintf("(%s, mkHObs %d %s [%s])", tab.req(req), res.Status, statsG(res.Stats), strings.Join(sers, "; ")))
 			sh := stepShape(req, res, snap, exon)
+			if res.Panicked {
+				sh = "handler-panic"
+				shape = sh
+				meta.Hit("head:handler-panic")
+			}
 			if sh != "" && shape == "head-ok" {
 				shape = sh
 			}
@@ -753,6 +783,51 @@ func main() {
 	emitRec(&request{V2: true, Bad: true}, nil, true, "v2-undecodable")
 	emitRec(&request{Bad: true}, nil, true, "v1-undecodable")
 	emitSym([][]lbl{{{"__name__", "m"}, {"a", "m"}, {"b", ""}}, {{"a", "m"}}})
+	// 2.0 references at the exact table boundary: name / value position, series / exemplar labels,
+	// help / unit; len-1 is the last valid reference, len the first invalid one
+	boundary := func(where string, val func(n uint32) uint32) *request {
+		rq := v2req(ser{L: []lbl{{"__name__", "m1"}, {"a", "x"}}, S: []smp{{1000, 1}, {1010, 2}},
+			E: []exm{{L: tr(1), T: 1001, V: 1}}},
+			ser{L: []lbl{{"__name__", "m2"}}, S: []smp{{1000, 3}}})
+		n := uint32(len(rq.Syms))
+		s0 := &rq.Ser[0]
+		switch where {
+		case "series-name":
+			s0.Refs[2] = val(n)
+		case "series-value":
+			s0.Refs[3] = val(n)
+		case "exemplar-name":
+			s0.E[0].Refs[0] = val(n)
+		case "exemplar-value":
+			s0.E[0].Refs[1] = val(n)
+		case "help":
+			s0.Help = val(n)
+		case "unit":
+			s0.Unit = val(n)
+		case "series-odd":
+			s0.Refs = s0.Refs[:3]
+		case "exemplar-odd":
+			s0.E[0].Refs = s0.E[0].Refs[:1]
+		}
+		return rq
+	}
+	vals := []struct {
+		name string
+		f    func(n uint32) uint32
+	}{{"len-1", func(n uint32) uint32 { return n - 1 }}, {"len", func(n uint32) uint32 { return n }},
+		{"len+1", func(n uint32) uint32 { return n + 1 }}, {"maxuint32", func(uint32) uint32 { return math.MaxUint32 }}}
+	for _, where := range []string{"series-name", "series-value", "exemplar-name", "exemplar-value", "help", "unit"} {
+		for _, v := range vals {
+			emitRec(boundary(where, v.f), nil, true, "v2-ref-"+where+"-"+v.name)
+			if v.name == "len-1" || v.name == "len" {
+				emitHead([]*request{boundary(where, v.f)}, true, "v2-ref-"+where+"-"+v.name)
+			}
+		}
+	}
+	for _, where := range []string{"series-odd", "exemplar-odd"} {
+		emitRec(boundary(where, nil), nil, true, "v2-ref-"+where)
+		emitHead([]*request{boundary(where, nil)}, true, "v2-ref-"+where)
+	}
 
 	// ----- generated -----
 	nRec := f.Count(200, 3500)
